@@ -488,6 +488,7 @@ func runC07(e *Env) error {
 		"apply-body shapes (22 light routes × two names: the body is exactly one print tag whose value is a macro call — local, _self, imported, from-imported, aliased — or parent(), a compound expression, exactly one include / block / if / for / nested apply, the same between trimmed whitespace or next to text; expected escape(text the body adds) + escReg(v)); " +
 		"macro-body text interpolated by the macro call (templates assembled from nodes: NewMacroNode + NewTextNode carrying {{ name|e }} placeholders, called by name, through import and from-import): 2 736 spellings of the placeholder (six kinds of blank in each of the four places, both names, the :argument form) against escReg(v), strings and non-string values; " +
 		"operand routes (c07_operands.go; 466 engines, each rendering every regression string, single byte, random string, one batch of code points and every non-string value in turn): the value below the escaped expression — hash value / bare key / computed key, hash among literals, hash as base or argument of merge / default, hash in array, array in hash, hash in cycle() / ternary / ~, array item, ternary branch, filter and function argument, json_encode of hash / array / value (expected text by encoding/json), a condition on the value — × print, chain, apply, macro, imported macro, include × two names, plus set / for / if / macro argument / include-with holding the hash and the filter inside the literal; expected literal text + escReg(text reaching the filter), a mismatch is re-rendered on a fresh engine (stale vs wrong); " +
+		"the destination (c07_writers.go): every route × the regression strings and random strings written by Engine.RenderTo and Load + Template.RenderTo into a strings.Builder and into plain io.Writers that consume their bytes at once or only after something else has happened (another page rendered on the same goroutine to a writer / to a string, another user of twig.GetBuffer, another goroutine rendering while the writer waits — on one processor and on all —, a garbage collection), then 8 goroutines rendering their own route and value to io.Pipes read in small pieces (one processor and all); expected literal text + escReg(v), the page rendered meanwhile is checked too; " +
 		"the nil-environment fallback (two routes × two names) against Escape.escFallback on the same single bytes, pairs, code points and random strings. " +
 		"non-trivial = input contains one of < > & \" ' or is not valid UTF-8; distinct by input"
 	// another engine of the same process replaces e / escape / raw by filters of its own BEFORE the engines under
@@ -592,6 +593,14 @@ func runC07(e *Env) error {
 	}
 	r.Sample(map[string]any{"kind": "route", "route": engines[0].route.name, "input": "a<b>c&d\"e'f"})
 	if err := c07CheckFallback(e, fixed, "regression"); err != nil {
+		return err
+	}
+	if r.Full() {
+		return nil
+	}
+
+	// ---- the same routes written to an io.Writer (c07_writers.go): writers that consume their bytes late, concurrent pipes ----
+	if err := c07Writers(e, engines, fixed); err != nil {
 		return err
 	}
 	if r.Full() {
